@@ -155,6 +155,7 @@ func cmdCheck(args []string) {
 		knownAnywhere[kf.Obligation] = true
 	}
 	var closureSkipped []string
+	var removedHelpers []string
 	for ki := 0; ki < len(keys); ki++ {
 		k := keys[ki]
 		fr := eng.verifyFunc(k)
@@ -180,6 +181,14 @@ func cmdCheck(args []string) {
 				noteSet[n] = true
 				notes = append(notes, n)
 			}
+		}
+		if fr.Missing && unexportedName(cfnName(eng, k)) {
+			// an unexported helper that was inlined into its callers, renamed or removed by a refactor: its contract was
+			// proof scaffolding. Nothing is claimed for it; its former callers are verified with whatever replaced it
+			// (repository functions without a contract are executed in place), so their own clauses still decide.
+			removedHelpers = append(removedHelpers, calleeShort(k))
+			funcsUnder = funcsUnder[:len(funcsUnder)-1]
+			continue
 		}
 		if fr.Err != "" {
 			p := writeReplay(calleeShort(k)+"-engine", map[string]interface{}{"obligation": calleeShort(k) + ":verifiable", "error": fr.Err,
@@ -471,6 +480,7 @@ func cmdCheck(args []string) {
 		"trusted_base":             trusted,
 		"functions_under_contract": funcsUnder,
 		"functions_added_by_callee_closure": closureFns(viaClosure),
+		"contracts_of_unexported_functions_no_longer_in_the_tree": nonNil(removedHelpers),
 		"closure_obligations_left_to_their_own_property": nonNil(closureSkipped),
 		"by_backend":               byBackend,
 		"solver_time_s":            round3(solverTime),
@@ -744,4 +754,25 @@ func closureFns(m map[string]bool) []string {
 	}
 	sort.Strings(out)
 	return out
+}
+
+// cfnName: the bare function or method name a contract key ends in.
+func cfnName(e *Engine, key string) string {
+	if c := e.cs.Funcs[key]; c != nil {
+		return c.Name
+	}
+	return key
+}
+
+// unexportedName: an unexported function or method name (function literals are named after their parent: f$1).
+func unexportedName(name string) bool {
+	if name == "" {
+		return false
+	}
+	base := name
+	if i := strings.Index(base, "$"); i >= 0 {
+		base = base[:i]
+	}
+	r := base[0]
+	return r >= 'a' && r <= 'z' || r == '_'
 }
